@@ -101,6 +101,25 @@ CLAIMED["C19"] = dict(
          "successive iterations; on every completion order the recorded stream must be the routed messages, whole and in order.",
     note="Trusted: VLoop; the thread pool behind aiofiles enters as 'a submitted call completes after an arbitrary independent delay'.",
     ref="DESIGN.md section 6 C19", technique=XHV)
+CLAIMED["C18"] = dict(
+    text="The real TCP and TTY connection handlers (handler_func / handle, wait_for_messages, close) on the model loop with fake streams, real "
+         "framing and real expat on concrete session bytes; fault kind (6) and injection step are symbolic indices; after quiescence the victim must "
+         "be gone from Router.clients, blob_routing and connections, its writer closed, bystanders fully served, a reconnecting peer at defaults.",
+    note="Trusted: VLoop; fake streams with the surface the handlers use. Session content is concrete (bytes go through real expat).",
+    ref="DESIGN.md section 6 C18", technique=XHV)
+CLAIMED["C14"] = dict(
+    text="The real event machinery (on / attach_event_handlers / raise_event, Element value setter / set_value, from_new_message) with handler "
+         "configurations enumerated as shapes (plain/coroutine Write, Change, Read handlers), entry point client message / set_value / assignment, and "
+         "symbolic old/new values, veto and enabled bits; the ordered trace of handler calls and publications must satisfy the contract. Coroutine "
+         "handlers run as tasks on the model loop. A second instance of the driver class must not see the events.",
+    note="Trusted: VLoop. Read handlers are observers during writes (reading of the statement).",
+    ref="DESIGN.md section 6 C14", technique=XHV)
+CLAIMED["C07"] = dict(
+    text="A 3-level inherited driver with all five vector kinds plus a second device on a real Router: (i) for symbolic driver state and symbolic "
+         "request (device x name) the def* messages handed to the router must equal a reference computed from the driver's public attributes; "
+         "(ii) every message emitted on requests and on driver-side operations must re-parse through the tree wire to an equal view.",
+    note="Trusted: tree wire (C03); numbers from a value list (rendering is C10). State and addressing are varied in separate condition families.",
+    ref="DESIGN.md section 6 C07", technique=XH)
 NA_DEFAULT = "check not built yet in this round (no verdict claimed); see DESIGN.md section 6 for the plan"
 
 checks, na = [], []
